@@ -57,3 +57,36 @@ def sub_trace(ta, ids: Dict[int, List[int]]):
     ta2 = copy.copy(ta)
     ta2.t = t2
     return ta2
+
+
+PRIOR_KINDS = ("cp", "decode", "getters")
+
+
+def prior_session(ta, kind: str) -> None:
+    """Earlier use of the same TraceAnalysis object, as in a notebook session; its outcome is not judged, only that
+    the analysis under test still sees the loaded trace afterwards."""
+    import contextlib
+    import io
+
+    def quiet(f, *a, **k):
+        try:
+            with contextlib.redirect_stdout(io.StringIO()):
+                f(*a, **k)
+        except Exception:
+            pass
+
+    if kind == "cp":
+        # critical path of the window of the first launch call: the analysis works on a clipped copy of the trace
+        quiet(ta.critical_path_analysis, rank=0, annotation="cudaLaunchKernel", instance_id=0)
+    elif kind == "decode":
+        quiet(ta.t.decode_symbol_ids, use_shorten_name=True)
+    elif kind == "getters":
+        quiet(ta.get_temporal_breakdown, visualize=False)
+        quiet(ta.get_gpu_kernel_breakdown, visualize=False)
+        quiet(ta.get_idle_time_breakdown, visualize=False)
+        quiet(ta.get_comm_comp_overlap, visualize=False)
+        quiet(ta.get_cuda_kernel_launch_stats, visualize=False)
+        quiet(ta.get_queue_length_summary)
+        quiet(ta.get_memory_bw_summary)
+    else:
+        raise ValueError(kind)
